@@ -396,7 +396,14 @@ func runC23(r *Run) {
 			case hasData:
 				o.OK("file record: %s and %s are set", nameF.Name(), sizeF.Name())
 			case later[sizeF.Name()] || later[modeF.Name()] || later[nameF.Name()]:
-				o.Unknown("the record is populated field by field after construction: shape not understood")
+				// populated field by field: every use of the variable other than those assignments must
+				// be reached only through an assignment of the size field or of the mode field with a
+				// constant carrying fs.ModeDir
+				if ok, why := c23PopulatedOnEveryPath(r, info, par, fi, cl, sizeF.Name(), modeF.Name(), modeDir); ok {
+					o.OK("record populated field by field: %s", why)
+				} else {
+					o.Unknown("the record is populated field by field after construction: %s", why)
+				}
 			case given[modeF.Name()] != nil && !modeConst:
 				o.Unknown("the mode is not a constant and %s is not set: cannot tell whether the record describes a directory", sizeF.Name())
 			default:
@@ -756,4 +763,76 @@ func c23OffsetRule(r *Run, R string, fi *FuncInfo, info *types.Info) {
 	if n == 0 {
 		r.Ob(R, fi.Name()+"#offset", fi.Decl.Pos()).Unknown("no return of a slice variable found: shape not understood")
 	}
+}
+
+// c23PopulatedOnEveryPath: the record literal cl is bound to a local v; every statement that uses v other
+// than `v.f = …` is reached only through `v.<size> = …` or `v.<mode> = <constant with fs.ModeDir>`.
+func c23PopulatedOnEveryPath(r *Run, info *types.Info, par map[ast.Node]ast.Node, fi *FuncInfo, cl *ast.CompositeLit, sizeName, modeName string, modeDir int64) (bool, string) {
+	var n ast.Node = cl
+	if u, ok := par[n].(*ast.UnaryExpr); ok {
+		n = u
+	}
+	var v types.Object
+	if p, ok := par[n].(*ast.AssignStmt); ok && len(p.Lhs) == len(p.Rhs) {
+		for i, rh := range p.Rhs {
+			if ast.Node(rh) == n {
+				v = c03ObjOf(info, p.Lhs[i])
+			}
+		}
+	}
+	if v == nil {
+		return false, "the literal is not bound to a local variable"
+	}
+	fills := map[ast.Node]bool{}
+	fieldAssign := map[*ast.Ident]bool{} // identifiers of v used as the base of an assigned field
+	ast.Inspect(fi.Decl.Body, func(m ast.Node) bool {
+		a, ok := m.(*ast.AssignStmt)
+		if !ok || len(a.Lhs) != len(a.Rhs) {
+			return true
+		}
+		for i, l := range a.Lhs {
+			sel, ok := ast.Unparen(l).(*ast.SelectorExpr)
+			if !ok || c03ObjOf(info, sel.X) != v {
+				continue
+			}
+			if id, ok := ast.Unparen(sel.X).(*ast.Ident); ok {
+				fieldAssign[id] = true
+			}
+			switch sel.Sel.Name {
+			case sizeName:
+				fills[a] = true
+			case modeName:
+				if tv, ok := info.Types[a.Rhs[i]]; ok && tv.Value != nil {
+					if k, ok := constant.Uint64Val(constant.ToInt(tv.Value)); ok && int64(k)&modeDir != 0 {
+						fills[a] = true
+					}
+				}
+			}
+		}
+		return true
+	})
+	if len(fills) == 0 {
+		return false, "neither the size field nor the mode field (with fs.ModeDir) is ever assigned"
+	}
+	g := r.P.CFGOf(fi)
+	uses := 0
+	bad := ""
+	ast.Inspect(fi.Decl.Body, func(m ast.Node) bool {
+		id, ok := m.(*ast.Ident)
+		if !ok || info.Uses[id] != v || fieldAssign[id] {
+			return true
+		}
+		uses++
+		if !g.MustPassNode(id, func(nd ast.Node) bool { return fills[nd] }) {
+			bad = "a use of " + v.Name() + " at " + r.P.Pos(id.Pos()) + " is reachable without the size or the directory mode having been set"
+		}
+		return true
+	})
+	if bad != "" {
+		return false, bad
+	}
+	if uses == 0 {
+		return false, "the variable is never used"
+	}
+	return true, "every use of " + v.Name() + " is reached through an assignment of " + sizeName + " or of " + modeName + " with fs.ModeDir"
 }
